@@ -5,7 +5,7 @@ From Coq Require Import Lia ZifyBool.
 
 Lemma Rr_rd r l lim i : Rr r l lim -> 0 <= i < top r -> rd (arr r) i = rd l i.
 Proof.
-  intros [Ht Hc Hl _ _] Hi. rewrite <- Hl. unfold live. rewrite rd_firstn.
+  intros [Ht Hc Hlc Hl _ _] Hi. rewrite <- Hl. unfold live. rewrite rd_firstn.
   destruct (i <? top r) eqn:E; [reflexivity|lia].
 Qed.
 
@@ -14,7 +14,7 @@ Lemma Rr_build r1 l lim a' t' l' :
   (forall i, 0 <= i < t' -> rd a' i = rd l' i) ->
   Rr (with_arr_top r1 a' t') l' lim.
 Proof.
-  intros [Ht Hc Hl Hlim Hg] Ha Ht' Hl' Hrd. constructor; simpl; unfold cap in *; simpl; try lia.
+  intros [Ht Hc Hlc Hl Hlim Hg] Ha Ht' Hl' Hrd. constructor; simpl; unfold cap in *; simpl; try lia.
   unfold live; simpl. apply list_eq_rd.
   - rewrite len_firstn. lia.
   - intros i Hi. rewrite len_firstn in Hi. rewrite rd_firstn.
@@ -32,7 +32,7 @@ Qed.
 
 Lemma checkSize_over r l lim req : Rr r l lim -> lim < req -> checkSize r req = Overflow.
 Proof.
-  intros [Ht Hc Hl Hlim Hg] H. unfold checkSize, resize.
+  intros [Ht Hc Hlc Hl Hlim Hg] H. unfold checkSize, resize.
   destruct (req >? cap r) eqn:E; [|lia].
   destruct (req + growBy r >? maxSize r) eqn:E2.
   - destruct (maxSize r <? req) eqn:E3; [reflexivity|lia].
@@ -43,7 +43,7 @@ Lemma checkSize_ok r l lim req : Rr r l lim -> req <= lim ->
   exists r1, checkSize r req = Ok r1 /\ Rr r1 l lim /\ req <= cap r1 /\ top r1 = top r /\
              growBy r1 = growBy r /\ maxSize r1 = maxSize r.
 Proof.
-  intros HR H. pose proof HR as [Ht Hc Hl Hlim Hg]. unfold checkSize, resize.
+  intros HR H. pose proof HR as [Ht Hc Hlc Hl Hlim Hg]. unfold checkSize, resize.
   pose proof (len_nonneg l) as Hl0.
   destruct (req >? cap r) eqn:E.
   2:{ exists r. repeat split; auto; lia. }
@@ -83,7 +83,7 @@ Proof.
   intros HR Ht. pose proof (len_nonneg l). unfold SetTop. destruct (t <? 0) eqn:E; [lia|].
   assert (Hle : t <= lim) by lia. rr_cs HR Hle.
   eexists. split; [reflexivity|].
-  pose proof HR1 as [Ht1' Hcc Hl1 _ _].
+  pose proof HR1 as [Ht1' Hcc Hlc1 Hl1 _ _].
   apply (Rr_build _ l); auto.
   - rdsimp. reflexivity.
   - lia.
@@ -98,9 +98,9 @@ Qed.
 Lemma Push_ok r l lim v : Rr r l lim -> len l + 1 <= lim ->
   exists r', Push r v = Ok r' /\ Rr r' (l ++ [v]) lim.
 Proof.
-  intros HR Hn. pose proof (len_nonneg l). unfold Push. pose proof HR as [Ht0 _ _ _ _].
+  intros HR Hn. pose proof (len_nonneg l). unfold Push. pose proof HR as [Ht0 _ _ _ _ _].
   assert (Hle : top r + 1 <= lim) by lia. rr_cs HR Hle.
-  eexists. split; [reflexivity|]. pose proof HR1 as [Ht1' Hcc Hl1 _ _].
+  eexists. split; [reflexivity|]. pose proof HR1 as [Ht1' Hcc Hlc1 Hl1 _ _].
   apply (Rr_build _ l); auto.
   - rdsimp. reflexivity.
   - lia.
@@ -115,7 +115,7 @@ Qed.
 Lemma Pop_ok r l lim : Rr r l lim -> 0 < len l ->
   exists r', Pop r = Ok (r', rd l (len l - 1)) /\ Rr r' (firstn (Z.to_nat (len l - 1)) l) lim.
 Proof.
-  intros HR Hn. pose proof HR as [Ht0 Hc0 Hl0 Hlim0 Hg0]. unfold Pop.
+  intros HR Hn. pose proof HR as [Ht0 Hc0 Hlc0 Hl0 Hlim0 Hg0]. unfold Pop.
   destruct ((top r <=? 0) || (top r >? cap r)) eqn:E; [lia|].
   rewrite (Rr_rd _ _ _ (top r - 1) HR) by lia. rewrite Ht0.
   eexists. split; [reflexivity|].
@@ -129,7 +129,7 @@ Qed.
 
 Lemma Get_ok r l lim reg : Rr r l lim -> 0 <= reg < len l -> Get r reg = Ok (rd l reg).
 Proof.
-  intros HR Hn. pose proof HR as [Ht0 Hc0 _ _ _]. unfold Get.
+  intros HR Hn. pose proof HR as [Ht0 Hc0 Hlc0 _ _ _]. unfold Get.
   destruct ((reg <? 0) || (reg >=? cap r)) eqn:E; [lia|].
   now rewrite (Rr_rd _ _ _ reg HR) by lia.
 Qed.
@@ -137,9 +137,9 @@ Qed.
 Lemma Set_ok r l lim reg v : Rr r l lim -> 0 <= reg <= len l -> reg + 1 <= lim ->
   exists r', Set_ r reg v = Ok r' /\ Rr r' (setL l reg v) lim.
 Proof.
-  intros HR Hreg Hn. pose proof (len_nonneg l). unfold Set_. pose proof HR as [Ht0 _ _ _ _].
+  intros HR Hreg Hn. pose proof (len_nonneg l). unfold Set_. pose proof HR as [Ht0 _ _ _ _ _].
   destruct (reg <? 0) eqn:E; [lia|]. rr_cs HR Hn.
-  eexists. split; [reflexivity|]. pose proof HR1 as [Ht1' Hcc Hl1 _ _].
+  eexists. split; [reflexivity|]. pose proof HR1 as [Ht1' Hcc Hlc1 Hl1 _ _].
   apply (Rr_build _ l); auto.
   - now rewrite len_upd.
   - destruct (reg >=? top r1) eqn:E2; lia.
@@ -159,9 +159,9 @@ Qed.
 Lemma FillNil_ok r l lim regm n : Rr r l lim -> 0 <= regm <= len l -> 0 <= n -> regm + n <= lim ->
   exists r', FillNil r regm n = Ok r' /\ Rr r' (fillNilL l regm n) lim.
 Proof.
-  intros HR Hreg Hn0 Hn. pose proof (len_nonneg l). unfold FillNil. pose proof HR as [Ht0 _ _ _ _].
+  intros HR Hreg Hn0 Hn. pose proof (len_nonneg l). unfold FillNil. pose proof HR as [Ht0 _ _ _ _ _].
   destruct ((regm <? 0) || (n <? 0)) eqn:E; [lia|]. rr_cs HR Hn.
-  eexists. split; [reflexivity|]. pose proof HR1 as [Ht1' Hcc Hl1 _ _].
+  eexists. split; [reflexivity|]. pose proof HR1 as [Ht1' Hcc Hlc1 Hl1 _ _].
   apply (Rr_build _ l); auto.
   - rdsimp. reflexivity.
   - lia.
@@ -208,9 +208,9 @@ Lemma CopyRange_ok r l lim regv start limit n :
   Rr r l lim -> 0 <= regv <= len l -> 0 <= n -> regv + n <= lim ->
   exists r', CopyRange r regv start limit n = Ok r' /\ Rr r' (copyRangeL l regv start limit n) lim.
 Proof.
-  intros HR Hreg Hn0 Hn. pose proof (len_nonneg l). unfold CopyRange. pose proof HR as [Ht0 _ _ _ _].
+  intros HR Hreg Hn0 Hn. pose proof (len_nonneg l). unfold CopyRange. pose proof HR as [Ht0 _ _ _ _ _].
   destruct ((regv <? 0) || (n <? 0)) eqn:E; [lia|]. rr_cs HR Hn.
-  eexists. split; [reflexivity|]. pose proof HR1 as [Ht1' Hcc Hl1 _ _].
+  eexists. split; [reflexivity|]. pose proof HR1 as [Ht1' Hcc Hlc1 Hl1 _ _].
   unfold copyRangeL. rewrite Ht1'.
   set (lm := if (limit =? -1) || (limit >? len l) then len l else limit).
   set (l0 := l ++ repeat None (Z.to_nat (regv + n - len l))).
@@ -271,7 +271,7 @@ Qed.
 Lemma Insert_ok r l lim v reg : Rr r l lim -> 0 <= reg <= len l -> len l + 1 <= lim ->
   exists r', Insert r v reg = Ok r' /\ Rr r' (insertL l v reg) lim.
 Proof.
-  intros HR Hreg Hn. pose proof (len_nonneg l). pose proof HR as [Ht0 Hc0 _ _ _]. unfold Insert.
+  intros HR Hreg Hn. pose proof (len_nonneg l). pose proof HR as [Ht0 Hc0 Hlc0 _ _ _]. unfold Insert.
   destruct (reg <? 0) eqn:E; [lia|].
   destruct (reg >=? top r) eqn:E2.
   - (* append *)
@@ -287,7 +287,7 @@ Proof.
     (* the first Set makes room; afterwards nothing grows *)
     unfold Set_ at 1. destruct (top r - 1 + 1 <? 0) eqn:E3; [lia|].
     assert (Hle : top r - 1 + 1 + 1 <= lim) by lia. rr_cs HR Hle.
-    pose proof HR1 as [Ht1' Hcc Hl1 _ _].
+    pose proof HR1 as [Ht1' Hcc Hlc1 Hl1 _ _].
     set (r2 := with_arr_top r1 (upd (arr r1) (top r - 1 + 1) (rd (arr r) (top r - 1)))
                  (if top r - 1 + 1 >=? top r1 then top r - 1 + 1 + 1 else top r1)).
     assert (Htop2 : top r2 = top r + 1) by (unfold r2; simpl; destruct (top r - 1 + 1 >=? top r1) eqn:E4; lia).
@@ -335,7 +335,7 @@ Qed.
 Lemma raisePush_ok r l lim v : Rr r l lim ->
   exists r', raisePush r v = Ok r' /\ Rr r' (l ++ [v]) (Z.max lim (len l + 1)).
 Proof.
-  intros HR. pose proof (len_nonneg l). pose proof HR as [Ht0 Hc0 Hl0 Hlim0 Hg0]. unfold raisePush, IsFull.
+  intros HR. pose proof (len_nonneg l). pose proof HR as [Ht0 Hc0 Hlc0 Hl0 Hlim0 Hg0]. unfold raisePush, IsFull.
   destruct (top r >=? cap r) eqn:E.
   - (* full: one more slot is forced *)
     assert (HR2 : Rr (forceResize r (top r + 1)) l (Z.max lim (len l + 1))).
@@ -363,7 +363,7 @@ Lemma rstep_sim r l lim o :
   else exists r', rstep r o = Ok (r', snd (lstepR l o)) /\
                   Rr r' (fst (lstepR l o)) (match o with RRaisePush => Z.max lim (len l + 1) | _ => lim end).
 Proof.
-  intros HR Hd. pose proof (len_nonneg l). pose proof HR as [Ht0 Hc0 Hl0 Hlim0 Hg0].
+  intros HR Hd. pose proof (len_nonneg l). pose proof HR as [Ht0 Hc0 Hlc0 Hl0 Hlim0 Hg0].
   destruct o as [v| |reg|reg v|t|regv start limit n|regm n|v reg| |dst src]; cbn [rneed rstep lstepR fst snd rop_dom] in *.
   - destruct (len l + 1 >? lim) eqn:E.
     + unfold Push. rewrite (checkSize_over r l lim) by (auto; lia). reflexivity.
@@ -405,7 +405,7 @@ Qed.
 (* ---------- histories ---------- *)
 
 Lemma Rr_top_live r l lim : Rr r l lim -> top r = len l /\ live r = l.
-Proof. intros [? ? ? ? ?]; auto. Qed.
+Proof. intros [? ? ? ? ? ?]; auto. Qed.
 
 Lemma registry_refines_list_lemma : forall ops r l lim,
   Rr r l lim -> ldomR l lim ops = true -> rrun r ops = lrunR l lim ops.
